@@ -36,6 +36,8 @@ def file_line_patterns(file_path: str | Path, patterns: Sequence[str]):
         int(result[1])
         for pat in patterns
         if len(result := pat.split(":")) == 2
+        # `path:abc` names no line (the pattern is not a `path:line` pattern at all)
+        and result[1].isdigit()
         and fnmatch.fnmatch(str(file_path), result[0])
     ]
 
